@@ -14,6 +14,7 @@ import PercevalModel.Lemmas.C11Adj
 import PercevalModel.Lemmas.C11Copy
 import PercevalModel.Lemmas.C11Heur
 import PercevalModel.Lemmas.C11Regroup
+import PercevalModel.Lemmas.C11Deep
 import PercevalModel.Props.C01
 import PercevalModel.Num.GQ
 
@@ -782,10 +783,65 @@ example : unitaryCircuit ([(0, .uni (.leaf (.bs (exBS .Rx)))), (1, .uni (.leaf (
       List (ℕ × Entry GQ)) = some [(0, .leaf (.bs (exBS .Rx))), (1, .leaf (.ps GQ.I))] ∧
     unitaryCircuit exEntries = none := ⟨rfl, rfl⟩
 
+/-! ## J. `copy()` of nested circuits with object identity
+
+`Model/C11Deep.lean`: every node of a circuit tree — leaf component or nested `Circuit` — carries the
+identity of the Python object it is; `t.copy next` is what `Circuit.copy()` / `Experiment.copy()` builds
+(a new object for EVERY occurrence of every component, nested circuits stay nested), numbering the new
+objects from `next`. -/
+
+/-- **a deep copy denotes the same circuit**: at every nesting depth, with any sharing of leaf or
+sub-circuit objects in the original, the copy is the same tree of components on the same modes — hence
+has the same matrix. -/
+theorem deep_copy_matrix [CommRing R] (I : R) (next : ℕ) (t : OCmp R) :
+    (t.copy next).1.erase = t.erase ∧
+      (t.copy next).1.erase.toC01 I = t.erase.toC01 I := by
+  have := OCmp.copy_erase next t
+  exact ⟨this, by rw [this]⟩
+
+/-- **the copy consists of fresh, pairwise distinct objects**: one new object per occurrence (the
+identities `next, next+1, …` in iteration order), so no object of the copy is an object of the
+original (whose identities are below `next`), and an object the original held twice — leaf or
+sub-circuit — is two objects in the copy. -/
+theorem deep_copy_fresh (next : ℕ) (t : OCmp R) :
+    (t.copy next).1.ids = List.range' next t.count ∧ (t.copy next).1.ids.Nodup ∧
+      ∀ a ∈ (t.copy next).1.ids, next ≤ a := by
+  obtain ⟨_, h⟩ := OCmp.copy_ids next t
+  refine ⟨h, by rw [h]; exact List.nodup_range' .., ?_⟩
+  intro a ha
+  rw [h, List.mem_range'_1] at ha
+  exact ha.1
+
+/-- **copy and original are independent**: an in-place change of any leaf object of the copy (at any
+depth: `set_value` on a parameter, `inverse`, …) leaves the original as it was, and an in-place change
+of any object of the original leaves the copy as it was. -/
+theorem deep_copy_independent (next : ℕ) (t : OCmp R) (hn : ∀ a ∈ t.ids, a < next)
+    (a : ℕ) (f : Leaf R → Leaf R) :
+    (a ∈ (t.copy next).1.ids → t.mutate a f = t) ∧
+      (a ∈ t.ids → (t.copy next).1.mutate a f = (t.copy next).1) := by
+  obtain ⟨_, _, hge⟩ := deep_copy_fresh next t
+  constructor
+  · intro ha
+    exact OCmp.mutate_fresh a f t (fun h => by have := hn a h; have := hge a ha; omega)
+  · intro ha
+    exact OCmp.mutate_fresh a f _ (fun h => by have := hn a ha; have := hge a h; omega)
+
+/-- a 3-mode circuit (object 0) holding the sub-circuit object 1 twice (at modes 0 and 1), the
+sub-circuit holding the beam splitter object 2 and the phase shifter object 3; its copy is made of the
+seven new objects 4 … 10 -/
+def exDeep : OCmp GQ :=
+  .circ 0 3 (.cons 0 (.circ 1 2 (.cons 0 (.leaf 2 (.bs (exBS .Rx))) (.cons 1 (.leaf 3 (.ps GQ.I)) .nil)))
+    (.cons 1 (.circ 1 2 (.cons 0 (.leaf 2 (.bs (exBS .Rx))) (.cons 1 (.leaf 3 (.ps GQ.I)) .nil))) .nil))
+
+example : (∀ a ∈ exDeep.ids, a < 4) ∧ exDeep.ids = [0, 1, 2, 3, 1, 2, 3] ∧
+    (exDeep.copy 4).1.ids = [4, 5, 6, 7, 8, 9, 10] := by decide
+
 /-! ## Still NOT proved (validated by the correspondence only)
 
-* `Processor.copy()` and deep copies of *nested* circuits with object identity (the reference model is
-  flat: a heap of leaf objects); `copy(subs=…)` with symbolic parameters;
+* the fields `Experiment.copy()` / `Processor.copy()` share with the original (shallow `copy.copy`: ports,
+  heralds, detectors, post-selection, noise, input state) — only the component list is modelled;
+  `copy(subs=…)` with symbolic parameters (for circuits whose parameters all have values `subs` changes
+  nothing); structural in-place changes (`add` on a nested container) are not in the mutation theorem;
 * model = code (differential testing on every run). -/
 
 end PM.C11
